@@ -136,11 +136,27 @@ def check(run: Run) -> None:
     cd = cls.methods["convert_call_to_dict"]
     fc = ctx.analysis(cd)
     ap, sigp = ("param", cd.pos_params[1]), ("param", cd.pos_params[3])
-    rt = strip_sites(fc.return_term())
+    def _len_norm(t):
+        """len(list(x)) is len(x)"""
+        if isinstance(t, tuple):
+            t = tuple(_len_norm(x) for x in t)
+            if len(t) == 4 and t[0] == "app" and t[1] == ("global", "builtins.len") and len(t[2]) == 1 and t[2][0][0] == "app" and t[2][0][1] == ("global", "builtins.list") and len(t[2][0][2]) == 1:
+                return ("app", ("global", "builtins.len"), (t[2][0][2][0],), ())
+        return t
+
+    rt = _len_norm(strip_sites(fc.return_term()))
     d = dict(rt[2]) if rt[0] == "new" and rt[1] == "Dict" else {}
     keys, values = d.get("keys"), d.get("values")
-    ok_vals = values == ("attr", ap, "args")
     n_pos = ("app", ("global", "builtins.len"), (("attr", ap, "args"),), ())
+    # values: a *copy* of the positional arguments, then the keyword values of the remaining names, in that order
+    fresh_args = ("app", ("global", "builtins.list"), (("attr", ap, "args"),), ())
+    vparts = []
+    v_ = values
+    while v_ is not None and v_[0] == "concat":
+        vparts.insert(0, v_[2])
+        v_ = v_[1]
+    ok_vals = v_ in (fresh_args, ("attr", ap, "args"))
+    run.check(v_ != ("attr", ap, "args"), "C06.R4", cd, cd.node, "the value list is a copy of the call's positional arguments", "the dictionary's value list *is* the call's own argument list: appending the keyword values edits the call node in place, so a constructor call that occurs twice in the expression (the argument of a helper that uses its parameter twice) is lowered wrongly or refused the second time ('Too many arguments')", "arg_values = list(a.args)", show(values)[:200], key="constructor lowering edits the call's args in place")
     parts = []
     k = keys
     while k is not None and k[0] == "concat":
@@ -158,7 +174,7 @@ def check(run: Run) -> None:
     run.check(ok_vals and ok_keys, "C06.R4", cd, cd.node, "positional values bind to sig_arg_names[:len(args)] in order", f"convert_call_to_dict returns {show(rt)[:200]}: positional arguments are not bound to the first len(args) field names in order", term=show(rt))
     # keywords by name among the remaining names
     loops = [n for n in own_nodes(cd) if isinstance(n, ast.For)]
-    rem = [lp for lp in loops if strip_sites(fc.term_of(lp.iter, fc.cfg.node_of(lp))) == ("slice", sigp, n_pos, None)]
+    rem = [lp for lp in loops if _len_norm(strip_sites(fc.term_of(lp.iter, fc.cfg.node_of(lp)))) == ("slice", sigp, n_pos, None)]
     ok_kw = False
     if len(rem) == 1:
         lp = rem[0]
@@ -168,7 +184,7 @@ def check(run: Run) -> None:
             # values.append(lookup[name]); names.append(Constant(name)) under `name in lookup`
             fx = Facts(fc, apps[0])
             guarded = any(pol and isinstance(a, ast.Compare) and isinstance(a.ops[0], ast.In) and isinstance(a.left, ast.Name) and a.left.id == lp.target.id for a, pol in fx.atoms)  # type: ignore
-            t_vals = [strip_sites(fc.term_of(c.args[0])) for c in apps]
+            t_vals = [_len_norm(strip_sites(fc.term_of(c.args[0]))) for c in apps]
             has_val = any(t[0] == "subscript" and t[2] == ("elem", ("slice", sigp, n_pos, None)) for t in t_vals)
             has_key = any(t[0] == "new" and t[1] == "Constant" and dict(t[2]).get("value") == ("elem", ("slice", sigp, n_pos, None)) for t in t_vals)
             ok_kw = guarded and has_val and has_key
@@ -269,6 +285,9 @@ def check(run: Run) -> None:
 
     # ---------------- R6
     check_binders(run, TermCtx(m, max_depth=2), m, rcv, "C06.R6")
+    from .c04 import check_comprehension_shadow
+
+    check_comprehension_shadow(run, TermCtx(m, max_depth=2), m, m.find_class("_resolve_called_lambdas", in_module="func_adl.util_ast"), "C06.R6")
 
 
 def _raise_precedes(fa, r: ast.Raise, b: ast.Call) -> bool:
